@@ -81,7 +81,6 @@ def main(original_function=None, **sp_kwargs):
                     name,
                     parameter.annotation,
                     helpers.field(
-                        name=name,
                         default=default,
                         default_factory=default_factory,
                         help=docstring_param_description.get(name, ""),
